@@ -595,6 +595,31 @@ func genC20(out *caseWriter, seed uint64, n int, args []string) error {
 		w.Alpha = r.chance(60)
 		items = append(items, caseIn{fmt.Sprintf("C20-%d-%d-w", seed, i), "C20.weights", w.Enc() + " | " + enc})
 
+		if i%20 == 7 {
+			// a pair trade: a long and a short position in one class of the universe that are worth the same, so that
+			// the class's weight is exactly zero on every date while its members' weights are not (seeded change
+			// C20g-skip-all-zero-rows dropped an all-zero row TOGETHER with the rows below it)
+			d0 := time.Date(2021, 1, 4, 0, 0, 0, 0, time.UTC).AddDate(0, 0, r.intn(200))
+			n1, p1 := r.rangeInt(2, 50)*2, r.rangeInt(5, 400)
+			n2 := n1 / 2
+			pj := Journal{
+				{Kind: 'O', Date: dateStr(d0), Acc: "Assets:Bank"}, {Kind: 'O', Date: dateStr(d0), Acc: "Assets:Broker"}, {Kind: 'O', Date: dateStr(d0), Acc: "Equity:Opening"},
+				{Kind: 'P', Date: dateStr(d0), Com: "AAPL", Price: fmt.Sprintf("%d", p1), Target: "CHF"},
+				{Kind: 'P', Date: dateStr(d0), Com: "NESN", Price: fmt.Sprintf("%d", 2*p1), Target: "CHF"},
+				{Kind: 'T', Date: dateStr(d0.AddDate(0, 0, 1)), Desc: "Opening", Bookings: []Booking{{"Equity:Opening", "Assets:Bank", amt(r, 1000, 90000), "CHF"}}},
+				{Kind: 'T', Date: dateStr(d0.AddDate(0, 0, 2)), Desc: "Long", Bookings: []Booking{{"Equity:Opening", "Assets:Broker", fmt.Sprintf("%d", n1), "AAPL"}}},
+				{Kind: 'T', Date: dateStr(d0.AddDate(0, 0, 2)), Desc: "Short", Bookings: []Booking{{"Assets:Broker", "Equity:Opening", fmt.Sprintf("%d", n2), "NESN"}}},
+			}
+			if r.chance(50) { // later the prices move apart: from then on the class has a weight
+				pj = append(pj, Dir{Kind: 'P', Date: dateStr(d0.AddDate(0, 0, r.rangeInt(40, 90))), Com: "AAPL", Price: fmt.Sprintf("%d", p1+r.rangeInt(1, 4)), Target: "CHF"})
+			}
+			pw := PfCfg{Val: "CHF", Uni: pick(r, []string{"Equities=AAPL,NESN;Cash=CHF", "Equities:Pairs=AAPL,NESN", "Equities=AAPL,NESN,CHF"}), WFrom: "-", Alpha: r.chance(50),
+				From: "-", To: dateStr(d0.AddDate(0, 0, r.rangeInt(20, 120))), Interval: pick(r, []string{"monthly", "weekly", "once"})}
+			items = append(items, caseIn{fmt.Sprintf("C20-%d-%d-pair", seed, i), "C20.weights", pw.Enc() + " | " + pj.Enc()})
+			pw.Alpha = true
+			items = append(items, caseIn{fmt.Sprintf("C20-%d-%d-pairx", seed, i), "C20.cross", pw.Enc() + " | " + pj.Enc()})
+		}
+
 		// returns
 		rt := PfCfg{Val: p.val, Uni: "-", WFrom: "-"}
 		genPfWindow(r, p, &rt)
